@@ -39,6 +39,8 @@ def classify(fn, body, after):
     order-independent in IrcProofs/Determinism.v / Misc.v, or a shape that has no order at all); None = unclassified"""
     app = re.findall(r"(\w+)\s*=\s*append\(\1\b", body)
     if app and all(re.search(r"sort\.(Strings|Slice|Sort|Stable)\(\s*%s\b" % re.escape(v), after) for v in set(app)):
+        if re.search(r"\b(break|return|goto)\b", body):
+            return None                      # collecting stops early: WHICH elements are collected depends on the order
         return "sorted"                      # C01_listings_order_independent
     if re.search(r"InterestingFor\[.*\]\s*=\s*true", body):
         return "set"                         # C01_recipients_order_independent
